@@ -117,6 +117,14 @@ func (vc *VC) newFrame(fn *ssa.Function, con *Contract, depth int) *frame {
 
 // resolveAt finds the SSA value of source variable name at a program point.
 func (f *frame) resolveAt(name string, b *ssa.BasicBlock, idx int, st State) (TV, bool) {
+	if tv, ok := f.resolveLocal(name, b, idx, st); ok {
+		return tv, true
+	}
+	return f.resolveParam(name, st)
+}
+
+// resolveParam: the entry value of a parameter / captured variable.
+func (f *frame) resolveParam(name string, st State) (TV, bool) {
 	for _, p := range f.fn.Params {
 		if p.Name() == name {
 			return TV{T: f.val(p), Ty: goTy(p.Type())}, true
@@ -131,6 +139,12 @@ func (f *frame) resolveAt(name string, b *ssa.BasicBlock, idx int, st State) (TV
 			return TV{T: f.val(fv), Ty: goTy(fv.Type())}, true
 		}
 	}
+	return TV{}, false
+}
+
+// resolveLocal: the current SSA value of a source variable at a program point
+// (parameters are assignable in Go, so they are looked up here first).
+func (f *frame) resolveLocal(name string, b *ssa.BasicBlock, idx int, st State) (TV, bool) {
 	defs := f.names[name]
 	var best *nameDef
 	for i := range defs {
@@ -180,7 +194,10 @@ func (f *frame) envAt(b *ssa.BasicBlock, idx int, st State) *Env {
 	e := &Env{vc: f.vc, bound: map[string]TV{}, state: st, old: f.old, pkg: f.pkg()}
 	e.lookup = func(name string) (TV, bool) { return f.resolveAt(name, b, idx, st) }
 	e.oldLookup = func(name string) (TV, bool) {
-		// old(x): parameters keep their entry value; other names are evaluated in the entry state
+		// old(x): a parameter's entry value; other names are evaluated in the entry state
+		if tv, ok := f.resolveParam(name, f.old); ok {
+			return tv, true
+		}
 		return f.resolveAt(name, b, idx, f.old)
 	}
 	return e
